@@ -1,5 +1,6 @@
 import EdpVerif.Drv.Etf
 import EdpVerif.Impl.EqHash
+import EdpVerif.Impl.CmpArms
 namespace Edp.Drv
 open Edp
 
@@ -12,6 +13,15 @@ def handleC11 : List String → Option String
     let a ← getTerm a
     let b ← getTerm b
     pure (ordText (Term.cmp a b))
+  -- tie: the arm-by-arm models of `impl Ord for OwnedTerm` and of `impl Ord for BorrowedTerm` (Impl/CmpArms.lean)
+  | ["c11all", a, b] => some <| run do
+    let a ← getTerm a
+    let b ← getTerm b
+    pure (ordText (Term.cmp a b) ++ " " ++ ordText (Term.cmpOwned a b) ++ " " ++ ordText (Term.cmpBorrowed a b))
+  | ["c11arms", a, b] => some <| run do
+    let a ← getTerm a
+    let b ← getTerm b
+    pure (ordText (Term.cmpOwned a b) ++ " " ++ ordText (Term.cmpBorrowed a b))
   -- tie: the model of the derived `PartialEq`
   | ["c11eqv", a, b] => some <| run do
     let a ← getTerm a
